@@ -13,7 +13,19 @@ var registry = map[string]ruleFn{}
 
 func register(id string, f ruleFn) { registry[id] = f }
 
-func Lookup(id string) ruleFn { return registry[id] }
+// Lookup returns the property's rule set: its own rules followed by the shared-mechanism rules of extras.go.
+func Lookup(id string) ruleFn {
+	f := registry[id]
+	if f == nil {
+		return nil
+	}
+	return func(c *core.Ctx, r *core.Report) {
+		f(c, r)
+		if x := extras[id]; x != nil {
+			x(c, r)
+		}
+	}
+}
 
 func IDs() []string {
 	var out []string
